@@ -5,7 +5,7 @@ collide pairwise in every way the workspace can be confused by.
     B   (ns1, a - b)  decision Who = "B" same namespace as A, different name
     C   (ns2, a)  decision Who = "C"     same name as A, different namespace
     A2  (ns1, a)  decision Who = "A2"    identical key to A (DESIGN's A'); different content so a replacement is observable
-    D   (ns3, c)  decision Who = "D"     disjoint from all
+    D   (ns3, c)  knowledge model Who() = "D"   disjoint from all; its only invocable is a business knowledge model (no decision)
     E   (ns4, d)  decision Who = 1 +     parses (dmntk_model::parse accepts it) but ModelEvaluator::new fails: FEEL syntax error
     F   (ns3/, a-b) decision Who = "F"   its namespace differs from D's only by a trailing slash, its name from B's only by the blanks
                                          around the hyphen (the same FEEL name, another string): keys are compared as given, so it is
@@ -31,6 +31,17 @@ def model_xml(namespace, name, feel_text, decision=INVOCABLE):
             '</definitions>\n') % (namespace, name, decision, decision, feel_text)
 
 
+def bkm_model_xml(namespace, name, feel_text, invocable=INVOCABLE):
+    """a model without any decision: its only invocable is a parameterless business knowledge model"""
+    return ('<?xml version="1.0" encoding="UTF-8"?>\n'
+            '<definitions namespace="%s" name="%s" id="_model" xmlns="https://www.omg.org/spec/DMN/20191111/MODEL/">\n'
+            '  <businessKnowledgeModel name="%s" id="_bkm">\n'
+            '    <variable typeRef="string" name="%s"/>\n'
+            '    <encapsulatedLogic><literalExpression><text>%s</text></literalExpression></encapsulatedLogic>\n'
+            '  </businessKnowledgeModel>\n'
+            '</definitions>\n') % (namespace, name, invocable, invocable, feel_text)
+
+
 # tag -> (namespace, name, builds, value of Who when deployed)
 MODELS = {
     "A": ("ns1", "a", True, "A"),
@@ -42,7 +53,7 @@ MODELS = {
     "F": ("ns3/", "a-b", True, "F"),
 }
 TAGS = ["A", "B", "C", "A2", "D", "E", "F"]          # simplest first
-XML = {tag: model_xml(ns, name, '"%s"' % val if builds else "1 +") for tag, (ns, name, builds, val) in MODELS.items()}
+XML = {tag: (bkm_model_xml if tag == "D" else model_xml)(ns, name, '"%s"' % val if builds else "1 +") for tag, (ns, name, builds, val) in MODELS.items()}
 
 NAMESPACES = ["ns1", "ns2", "ns3", "ns4", "ns3/"]
 NAMES = ["a", "a - b", "c", "d", "a-b"]
